@@ -42,8 +42,10 @@ def run(ctx):
     ctx.assumptions += ['kernels chosen so that order/delay is an integer: Euler iterates are integers and compared with ==',
                         'adaptive clause: tolerance 1e-6 against a dense reference integration of the explicit linear chain']
     ks = '1..13'
-    expr = f'GammaCases({2 if tier == "quick" else 3}, {ks}, {{<<1, 1, 2, 2>>, <<1, 2, 3, 3>>}}, 6) \\cup ApproxCases(6)' \
+    expr = f'GammaCases(2, {ks}, {{<<1, 1, 2, 2>>, <<1, 2, 3, 3>>}}, 6) \\cup ApproxCases(6)' \
            + ' \\cup {c \\in GammaCases(3, {1, 3}, {<<1, 1, 2, 2>>}, 6) : Len(c.m.edges) = 3 /\\ c.cfg.vec}'
+    if tier == 'thorough':      # three-edge lists over a kernel subset (same / different order and rate, undelayed, discrete)
+        expr += ' \\cup {c \\in GammaCases(3, {1, 3, 5, 9, 12}, {<<1, 1, 2, 2>>, <<1, 2, 3, 3>>}, 6) : Len(c.m.edges) = 3}'
     c = tlc.cfg(constants=dict(Dev=set()), invariants=['EachEdgeOwnKernel', 'MeanDelayIsD', 'Integral', 'DiscreteKeepsItsDelay', 'Export'])
     r = tlc.run_tlc('Gamma', c, workers=16, defs=dict(Cases=expr), timeout=3000)
     ctx.add_tlc('design', r, 'augmented ODE iterates; kernel invariants')
